@@ -213,9 +213,9 @@ Theorem C10_incomplete_gamma (x a p : R) :
 Proof. exact (conj (gammaq_spec x a) (inv_gammap_spec p a)). Qed.
 Print Assumptions C10_incomplete_gamma.
 Theorem C10_inv_erf (p : R) :
-  (Rabs (p - 1) < 1 / 10000000000000000 -> guard_inv_erf ROps p = Ok tt)%R /\
-  (1 / 10000000000000000 <= Rabs (p - 1) -> 1 <= Rabs p -> guard_inv_erf ROps p = Exit)%R /\
-  (1 / 10000000000000000 <= Rabs (p - 1) -> Rabs p < 1 ->
+  (Rabs (p - 1) < 1 / 10000000000000000 \/ Rabs (p + 1) < 1 / 10000000000000000 -> guard_inv_erf ROps p = Ok tt)%R /\
+  (1 / 10000000000000000 <= Rabs (p - 1) -> 1 / 10000000000000000 <= Rabs (p + 1) -> 1 <= Rabs p -> guard_inv_erf ROps p = Exit)%R /\
+  (1 / 10000000000000000 <= Rabs (p - 1) -> 1 / 10000000000000000 <= Rabs (p + 1) -> Rabs p < 1 ->
      guard_inv_erf ROps p = guard_find_root ROps (fun x => Rerf x - p) (- 10) 10)%R.
 Proof. exact (inv_erf_spec p). Qed.
 Print Assumptions C10_inv_erf.
